@@ -276,6 +276,69 @@ def main(tier, replay=None):
             elif out1 != out3:
                 chk.violation({"property": PID, "option": o, "style": s, "reported": rep, "shape": "bb-roundtrip",
                                "why": f"--{o} {s!r} is reported by --show-config as {rep!r}; supplied again it renders differently"})
+    # ---- black box: removed / added / unchanged lines are painted with their own option's style, and with no
+    #      other option's: (--minus-style, --plus-style, --zero-style) drawn independently, incl. raw on coloured input
+    if not replay or (replay and json.load(open(replay)).get("shape") == "hunk-style"):
+        r = vlib.case_rng(chk.seed, PID, "hunk")
+        pool = ["bold red", "ul 12 #102030", "italic blue normal", "reverse brightyellow", "strike dim 200 17", "normal", "bold ul italic 33 52",
+                "raw", "raw", "syntax 22", "blink magenta white"]
+        hcases = [{"minus": r.choice(pool), "plus": r.choice(pool), "zero": r.choice(pool), "coloured": r.random() < 0.5}
+                  for _ in range(60 if tier == "quick" else 1200)]
+        hcases += [{"minus": "raw", "plus": "bold red", "zero": "normal", "coloured": False}, {"minus": "bold red", "plus": "raw", "zero": "normal", "coloured": True},
+                   {"minus": "normal", "plus": "normal", "zero": "raw", "coloured": True}]
+        if replay:
+            hcases = [json.load(open(replay))["case"]]
+        # git's own default colours for removed / added lines (any other rendition is kept as a moved-line colour: C08);
+        # context lines are not coloured by git
+        IN_SGR = {"-": "31", "+": "32", " ": None}
+
+        def hunk_input(coloured):
+            body = [("-", "old Tmq x"), (" ", "ctx Tzq y"), ("+", "new Tpq z")]
+            lines = ["diff --git a/f.txt b/f.txt", "index 1..2 100644", "--- a/f.txt", "+++ b/f.txt", "@@ -1,2 +1,2 @@"]
+            for k, t in body:
+                lines.append(f"\x1b[{IN_SGR[k]}m{k}{t}\x1b[m" if (coloured and IN_SGR[k]) else k + t)
+            return ("\n".join(lines) + "\n").encode()
+
+        def work_h(c):
+            return vlib.run_delta(["--no-gitconfig", "--paging", "never", "--true-color", "always", "--syntax-theme", "none", "--minus-style", c["minus"],
+                                   "--plus-style", c["plus"], "--zero-style", c["zero"]], stdin=hunk_input(c["coloured"]))
+        with ThreadPoolExecutor(max_workers=vlib.NCPU) as ex:
+            hres = list(ex.map(work_h, hcases))
+        for c, (rc, out, err) in zip(hcases, hres):
+            chk.case(("hunk-style", json.dumps(c, sort_keys=True)), True, c)
+            chk.count("blackbox:hunk-line-style")
+            if rc != 0:
+                chk.violation({"property": PID, "shape": "hunk-style", "case": c, "why": f"exit status {rc}"})
+                continue
+            rows = term.decode(out)
+            why = []
+            for key, tokv, k in (("minus", "Tmq", "-"), ("zero", "Tzq", " "), ("plus", "Tpq", "+")):
+                style = c[key]
+                hit = [row for row in rows if tokv in row.text()]
+                if len(hit) != 1:
+                    why.append(f"the {key} line is shown {len(hit)} times")
+                    continue
+                t = hit[0].text()
+                i0 = t.find(tokv)
+                cells = hit[0].cells[i0:i0 + 3]
+                if style == "raw":
+                    if c["coloured"] and IN_SGR[k]:
+                        st = term.State()
+                        term.apply_sgr(st, [int(x) for x in IN_SGR[k].split(";")])
+                        want = (st.fg, st.bg, frozenset(st.attrs))
+                    else:
+                        want = (term.DEFAULT, term.DEFAULT, frozenset())
+                else:
+                    d = drv.ask("style_parse", vlib.hexs(style), "1")
+                    fields = dict(x.split("=") for x in d.split("\t")[1].split(";"))
+                    want = (term.DEFAULT if fields["fg"] == "-" else decode_color(fields["fg"]),
+                            term.DEFAULT if fields["bg"] == "-" else decode_color(fields["bg"]),
+                            frozenset(a for a in fields["attrs"].split(",") if a))
+                got = {(cl[1], cl[2], cl[3]) for cl in cells}
+                if got != {want}:
+                    why.append(f"--{key}-style {style!r}: the {key} line is painted {sorted(got, key=str)[:2]}, the style denotes {want}")
+            if why:
+                chk.violation({"property": PID, "shape": "hunk-style", "case": c, "why": "; ".join(why[:3])})
     vm.close()
     drv.close()
     return chk.finish()
